@@ -49,7 +49,8 @@ TEMPLATES = {
     "FunctionDef": "def g():\n    v = 2\n    return v",  # nested definition
 }
 
-POSITIONS = ["top", "if-body", "else-body", "elif-body", "while-body", "while-else", "for-body", "for-else", "after-loop"]
+POSITIONS = ["top", "if-body", "else-body", "elif-body", "while-body", "while-else", "for-body", "for-else", "after-loop",
+             "after-return", "after-break", "after-continue", "while-true-else", "while-true-body", "if-const-body", "first-statement", "last-statement"]
 
 
 def _subs(c):
@@ -83,6 +84,20 @@ def wrap(stmt, pos):
         return f"for i in range(x):\n    v += i\nelse:\n{s}"
     if pos == "after-loop":
         return f"while x:\n    x -= 1\n{stmt}\nv += 5"
+    if pos == "after-return":
+        return f"if x:\n    return v\n{s}\nv += 5"
+    if pos == "after-break":
+        return f"while x:\n    x -= 1\n    break\n{s}"
+    if pos == "after-continue":
+        return f"for i in range(x):\n    v += i\n    continue\n{s}"
+    if pos == "while-true-else":
+        return f"while True:\n    x -= 1\n    if x < 0:\n        break\nelse:\n{s}"
+    if pos == "while-true-body":
+        return f"while 1:\n{s}\n    break"
+    if pos == "if-const-body":
+        return f"if 0:\n{s}\nv += 5"
+    if pos in ("first-statement", "last-statement"):
+        return stmt
     raise ValueError(pos)
 
 
@@ -94,7 +109,12 @@ def build_source(cls, pos, depth):
         # nonlocal needs an enclosing function scope to be valid Python
         inner = "def f(x, y):\n" + textwrap.indent("v2 = 0\n" + body + "\nreturn v", "    ")
         return inner, "def outer():\n    v = 0\n" + textwrap.indent(inner, "    ")
-    src = "def f(x, y):\n    v = 0\n" + textwrap.indent(body, "    ") + "\n    return v\n"
+    if pos == "first-statement" and depth == 1:
+        src = "def f(x, y):\n" + textwrap.indent(body, "    ") + "\n    v = 0\n    return v\n"
+    elif pos == "last-statement" and depth == 1:
+        src = "def f(x, y):\n    v = 0\n" + textwrap.indent(body, "    ") + "\n"
+    else:
+        src = "def f(x, y):\n    v = 0\n" + textwrap.indent(body, "    ") + "\n    return v\n"
     return src, src
 
 
